@@ -28,7 +28,9 @@ Apply(e) ==
     [] e.op = "setscalar"  -> SetScalar(e.v, e.type, e.payload)
     [] e.op = "fromlist"   -> FromList(e.v, e.list)
     [] e.op = "setbyindex" -> IF IsArr(e.v) THEN SetByIndex(e.v, e.i, e.e) ELSE UNCHANGED hvars
-    [] e.op = "setlength"  -> IF IsArr(e.v) THEN SetLength(e.v, e.n) ELSE UNCHANGED hvars
+    [] e.op = "setlength"  -> IF ~IsArr(e.v) THEN UNCHANGED hvars
+                              ELSE IF e.n >= 0 /\ e.n < Len(vs[e.v][2]) THEN SetLengthDown(e.v, e.n, Len(e.obs.vars[e.v][3]) = e.n)
+                              ELSE SetLength(e.v, e.n)
     [] e.op = "mutelem"    -> MutElem(e.v, e.i)
     [] e.op = "setobject"  -> SetScalar(e.v, "Object", e.payload)
     [] e.op = "copy"       -> CopyTo(e.w, e.v)
